@@ -281,13 +281,13 @@ class Ctx:
                     n += 1
         return dst, n
 
-    def validate_families(self, traces, spec, kinds, cfg=None, per_endpoint=False, only=None):
+    def validate_families(self, traces, spec, kinds, cfg=None, per_endpoint=False, only=None, primary_only=True):
         ok = True
         views = [(fam, ep) for fam in traces for ep in (("c", "s") if per_endpoint else (None,))]
         for fam, ep in views:
             tf, runs = traces[fam]
             tag = fam + ("-" + ep if ep else "")
-            f, n = self.filtered(tf, kinds, "%s-%s.ndjson" % (spec, tag), ep=ep, only=only)
+            f, n = self.filtered(tf, kinds, "%s-%s.ndjson" % (spec, tag), ep=ep, only=only, primary_only=primary_only)
             ok &= self.trace(spec, f, runs=runs, label=tag, cfg=cfg)
             # distinct non-trivial runs: by content hash; non-trivial = the run contains a network fault or a
             # flow-control / reset / stop frame (i.e. something beyond the straight-line transfer)
